@@ -2,7 +2,8 @@
 # evidence texts. Numbers are budgets; what a run actually covered is measured and written as evidence.
 DEFAULT_SEED = 20261004
 
-SIM_ALLOC = "allocator (custom hooks: private arena with redzones/quarantine; default: renamed malloc/free/realloc with ledger)"
+SIM_ALLOC = "allocator (custom hooks: private arena with redzones, released blocks quarantined for the run or - a third of the custom runs - handed to the next request of the same size; default: renamed malloc/free/realloc with ledger)"
+SIM_BORROW = "memory the caller lends (constant keys, texts of string references, member names and pointer texts of patches built through the constructors): read-only mappings while the library runs"
 SIM_IN = "input buffer (bytes flush against an inaccessible page, read-only during the call)"
 SIM_OUT = "caller output buffer (capacity n flush against an inaccessible page, canaries in front)"
 SIM_SCHED = "task scheduler (cooperative fibers on one OS thread; every switch decided by the plan)"
@@ -29,11 +30,11 @@ PROPS = {
     "C07": P("asan", "exploration", (100000, 25), (4000000, 420),
              "seeded histories of core calls plus parse, print, duplicate, delete, reference nodes, constant keys from a canaried caller pool, string references and key arguments aliasing the moved item's own key; the allocator ledger is the oracle after every step (wrong/double/foreign release), freed custom blocks stay poisoned for the whole run (touch-after-release is an ASan report), the pool is compared byte for byte, and at the end every root is deleted and the live set must be empty. Distinct by model-state hash after a step; non-trivial as in C06.",
              "hash of the model state after a non-trivial mutating step",
-             [SIM_ALLOC, SIM_IN], probes=["alias_key_add", "alias_key_replace", "reference_node_created", "constant_key", "dup_of_reference", "setvaluestring_grow", "detach_last"]),
+             [SIM_ALLOC, SIM_IN, SIM_BORROW], probes=["alias_key_add", "alias_key_replace", "reference_node_created", "constant_key", "dup_of_reference", "setvaluestring_grow", "detach_last", "reference_added_under_the_items_own_key", "referenced_item_renamed"]),
     "C14": P("asan", "exploration", (40000, 25), (2000000, 420),
              "a run is 2-4 epochs; each starts with an empty ledger and a hook configuration drawn from {default, both custom, malloc only, free only, NULL members, reset}, then runs a history over core and Utils calls; every allocator entry is checked against the routing the configuration allows (libc functions never called on the library's behalf under custom hooks, realloc only in the default configuration, every release reaches the counterpart of the function that allocated the block). Distinct by model-state hash.",
              "hash of the model state after a non-trivial mutating step, across hook configurations",
-             [SIM_ALLOC, SIM_IN], probes=["sorted", "patch_succeeded"]),
+             [SIM_ALLOC, SIM_IN, SIM_BORROW], probes=["sorted", "patch_succeeded", "patch_built_through_constructors_with_lent_texts"]),
     "C04": P("asan", "exploration", (40000, 30), (2500000, 480),
              "trees of every provenance (constructors, helpers, edits, parser, duplicate; depth up to 1000) are printed with Print, PrintUnformatted, PrintBuffered (prebuffer from {0,1,2,len-1,len,len+1,256,...}) and PrintPreallocated under both allocator configurations (default with realloc moving / shrinking in place; custom hooks without realloc); all byte streams must agree, parse back to an equal tree (numbers within 2^-52 relative, exact for integers below 1e15) and re-print byte-identically. Distinct by (tree hash, home allocator configuration); non-trivial when the tree is a container with a non-integer number or a string needing escapes/high bytes.",
              "hash of (printed tree, allocator configuration) for non-trivial trees",
